@@ -218,3 +218,10 @@ PROPS["C20"] = dict(explanation=SQL_EXPL + "C20: select list in {*, V, F, (V,F),
     bounds=["fixed-length 1D bucket, 3 rows, columns Epoch, V int32, F float32; 5 select lists x 3 alias modes x LIMIT 0..4"],
     outside=["INSERT INTO ... SELECT (InsertIntoStatement.Materialize is not exercised)", "aggregate function calls in the select list", "known finding region: an alias equal to the name of another selected column"],
     stubs=FS_STUBS + ["ANTLR front end bypassed"], assumptions=COMMON_ASSUME)
+
+
+PROPS["C07"] = dict(explanation="Bounded symbolic execution of one real write request (Writer.WriteCSM -> WriteRecords -> WALFileType.RequestFlush -> FlushToWAL/FlushCommandsToWAL) from every pre-state of the flush machinery: without a background WAL writer, or with one and 0, 1 or 2 flush requests of other clients already queued. The WAL writer goroutine is played by an idle hook that runs whenever the client blocks and serves every queued request the way SyncWAL does (FlushToWAL, reply). When WriteCSM has returned, (1) a query issued at once must see the row, (2) the process is killed and restarted and the row must have been recovered (it was synced to the WAL or is in the primary file).",
+    runs=[dict(pkg="executor", files=["c08_fixed.go", "c09_variable.go", "c11_range.go", "c01_walsim.go", "c07_flush.go"], entries=["VerifC07WriteReturns"], must_reach=["entered", "returned"], opts=dict(timeout=30))],
+    bounds=["one fixed-length bucket, one row per request, value symbolic", "pre-states: {no writer} + {writer} x {0,1,2 queued requests}"],
+    outside=["schedules of several truly concurrent writers, the timer flush racing with the request (single interpreted goroutine; the writer runs only when the client blocks)", "known finding region: a flush request of another client is already queued"],
+    stubs=FS_STUBS + ["WAL writer goroutine: idle hook (serves queued flush requests when the client blocks)"], assumptions=COMMON_ASSUME)
